@@ -33,7 +33,10 @@ THEOREMS = [
     "JanetModel.Props.C11.chunk_independent_many",
     "JanetModel.Props.C11.clone_independent",
     "JanetModel.Props.C11.clone_copies_every_field",
-    "JanetModel.Props.C11.status_produce_pure_partial",
+    "JanetModel.Props.C11.status_produce_pure",
+    "JanetModel.Props.C11.status_produce_pure_from",
+    "JanetModel.Props.C11.wf_reachable",
+    "JanetModel.Props.C11.frames_in_bounds_reachable",
     "JanetModel.Props.C11.produce_touches_only_queue",
     "JanetModel.Props.C11.flush_frames_in_bounds",
     "JanetModel.Props.C11.takeError_frames_in_bounds",
